@@ -5,15 +5,17 @@ from common import Report, log
 
 MANIFEST = dict(
     technique='Coq proof over a byte-level Gallina mirror of the tokenizer (Model/Lexer.v) + lexical tables regenerated from the source each run + byte-for-byte differential correspondence of the Go tokenizer against the OCaml extraction of the model (sample re-evaluated in Coq by vm_compute) + implementation-side reference lexer and layout-independence oracles',
-    text='The tokenizer (whitespace/comment skipping, dispatch, identifiers and keywords with compound look-ahead, numbers, the four quoted readers with doubled quotes and escapes, triple quotes, dollar quoting, placeholders, every operator ladder, both limits, every error site with its location) is mirrored branch by branch in Gallina over bytes with explicit Panic/OutOfFuel outcomes. Proved for every byte string: tokenizing never panics and never runs out of fuel (progress lemma per dispatch branch); a successful run ends with exactly one end marker and contains no other; the size and token limits reject exactly above the limit; comments are captured in order with their exact text and never appear among the tokens; and, against the reference lexical grammar Spec/LexSpec.v, munch lemmas and the faithful-reading theorem for the staged lexeme classes with its corollaries (layout independence, keyword case independence, quoted identifiers distinct). The keyword maps, rune classes, token type numbers, limits and error codes are regenerated from the tree on every run; the model is compared with the real tokenizer on every operator pair x separator class, generated lexeme streams, byte soup, invalid UTF-8 and the repository corpus (kind, value, quote, spans, comments, error code and location).',
+    text='The tokenizer (whitespace/comment skipping, dispatch, identifiers and keywords with compound look-ahead, numbers, the four quoted readers with doubled quotes and escapes, triple quotes, dollar quoting, placeholders, every operator ladder, both limits, every error site with its location) is mirrored branch by branch in Gallina over bytes with explicit Panic/OutOfFuel outcomes. Proved for every byte string: tokenizing never panics and never runs out of fuel (progress lemma per dispatch branch); a successful run ends with exactly one end marker, contains no other, has ordered non-empty disjoint token spans and at most MaxTokens tokens; input above the size limit is rejected with E1006 and at or below it the limit plays no role; comments are captured in source order, each with exactly the bytes it spans. Against the reference lexical grammar: the munch lemma of the operator/punctuation class (partial faithful-reading theorem) and quoted identifiers kept distinct from keywords. NOT proved in this revision: the faithful-reading theorem for words, numbers, strings, quoted identifiers and dollar quoting, and its corollaries layout independence and keyword-case independence; these are decided by the byte-for-byte correspondence and the implementation-side oracles (reference lexer written from the grammar, re-layout/re-case oracle on kinds, values and the parse). The keyword maps, rune classes, token type numbers, limits and error codes are regenerated from the tree on every run; the model is compared with the real tokenizer on every operator pair x separator class, generated lexeme streams, byte soup, invalid UTF-8 and the repository corpus (kind, value, quote, spans, comments, error code and location).',
     note=common.BASE_NOTE + "C04: the theorems are about Model/Lexer.v; its tie to tokenizer.go is the differential correspondence (extracted OCaml, ExtrOcamlBasic only, cross-checked in Coq on a sample) plus the regenerated tables. strings.ToUpper is modelled only as far as a lookup in the ASCII-keyed keyword maps can observe it (table of non-ASCII runes with ASCII upper-case image is regenerated). Compound keywords are judged after splitting (raw GROUP BY is one token).",
     design="6/C04")
 
 COQ_TARGETS = ["theories/Proofs/LexerP.vo", "theories/Proofs/LexSpecP.vo"]
 PROPS = "theories/Props/C04.v"
-THEOREMS = ["C04_tokenize_total", "C04_exactly_one_eof", "C04_size_limit", "C04_size_limit_exact", "C04_token_limit",
-            "C04_comments_captured", "C04_lex_faithful_partial", "C04_layout_independent_partial",
-            "C04_keyword_case_independent_partial", "C04_quoted_distinct"]
+THEOREMS = ["C04_tokenize_total", "C04_exactly_one_eof", "C04_tokenize_shape", "C04_size_limit", "C04_size_limit_exact",
+            "C04_token_limit_partial", "C04_comments_captured", "C04_lex_faithful_partial", "C04_quoted_distinct"]
+NOT_PROVED = ["lex_faithful (full: words/keywords with compound look-ahead, numbers, strings, quoted identifiers, dollar quoting, separator lemma, induction over the lexeme list)",
+              "layout_independent and keyword_case_independent (corollaries of lex_faithful): decided by the implementation-side oracles and the correspondence only",
+              "token_limit iff (more tokens than the limit <=> E1007): only the bound is proved; the boundary is explored on the implementation by C02"]
 
 
 def hx(b):
@@ -493,9 +495,11 @@ def run(tier):
     rp.cov["oracle_failures"] = nfail
     rp.cov["correspondence_mismatches"] = len(mism)
     rp.cov["samples"] = [{"input": inputs[i].decode("utf-8", "replace"), "canon": outs[i].get("c")[:40]} for i in (3, len(SPECIAL) + len(BYTE_SPECIAL) + 7)]
-    rp.cov["staged_classes"] = {"munch lemma proved": ["operators and punctuation", "ASCII words and keywords", "numbers"],
-                                "excluded from wf (correspondence and oracles only)": ["strings", "quoted identifiers", "back-ticked identifiers",
-                                                                                          "triple-quoted strings", "dollar quoting", "placeholders", "Unicode words"]}
+    rp.cov["staged_classes"] = {"munch lemma proved": ["operators and punctuation (all except bare '@' and the '$' forms)"],
+                                "no munch lemma yet (correspondence and oracles only)": ["words and keywords", "numbers", "strings", "quoted identifiers",
+                                                                                          "back-ticked identifiers", "triple-quoted strings", "dollar quoting",
+                                                                                          "placeholders", "Unicode words"]}
+    rp.cov["not_proved"] = NOT_PROVED
     rp.assumptions = ["the theorems are about Model/Lexer.v; the tie to tokenizer.go is the differential correspondence on the inputs listed, not a proof",
                       "strings.ToUpper is modelled as far as an ASCII-keyed map lookup observes it",
                       "Go unicode tables: rune classes are regenerated from the tokenizer's own predicates through the verif hook"]
